@@ -67,7 +67,7 @@ var valUsers = func() map[int]user.Signer {
 	return m
 }()
 
-const valTokenKinds = 7
+const valTokenKinds = 9
 
 type valToken struct {
 	v1             *session.Object
@@ -133,6 +133,29 @@ func valTokens() map[int]valToken {
 		valTokensTab[5] = mkV1(1, 3, true)
 		valTokensTab[6] = mkV2(1, 3, true)
 		valTokensTab[7] = mkV1(1, 2, false)
+		// forged tokens: another body (the session key is Bob's) under the SIGNATURE of a genuine token of Alice -
+		// the signature value alone says nothing about the body it comes with
+		{
+			var tok session.Object
+			tok.SetID(uuid.UUID{1, 2, 8})
+			tok.SetExp(100)
+			tok.SetNbf(1)
+			tok.SetIat(1)
+			tok.BindContainer(numCID(1))
+			tok.ForVerb(session.VerbObjectPut)
+			tok.SetAuthKey(valUsers[2].Public())
+			tok.SetIssuer(valUsers[1].UserID())
+			sig, _ := valTokensTab[1].v1.Signature()
+			tok.AttachSignature(sig)
+			valTokensTab[8] = valToken{v1: &tok, issuer: 1, subjct: 2, sigValid: false}
+		}
+		{
+			g := mkV2(1, 2, false)
+			sig, _ := valTokensTab[3].v2.Signature()
+			g.v2.AttachSignature(sig)
+			g.sigValid = false
+			valTokensTab[9] = g
+		}
 	})
 	return valTokensTab
 }
@@ -681,6 +704,16 @@ func valGenAuth(c *runCtx) []string {
 				ops = append(ops, fmt.Sprintf("validate authseq cap=%d objs=%d,%d,%d", capN, legit, forged, legit))
 				ops = append(ops, fmt.Sprintf("validate authseq cap=%d objs=%d,%d,%d", capN, forged, legit, forged))
 			}
+		}
+	}
+	// a genuine token first, then the forged token that carries its signature (and back)
+	for _, pr := range [][2]int{{1, 8}, {3, 9}} {
+		g, f := valTokens()[pr[0]], valTokens()[pr[1]]
+		legit := pr[0]*100 + g.issuer*10 + g.subjct
+		forged := pr[1]*100 + f.issuer*10 + f.subjct
+		for _, capN := range []int{1, 2, 8} {
+			ops = append(ops, fmt.Sprintf("validate authseq cap=%d objs=%d,%d,%d", capN, legit, forged, legit))
+			ops = append(ops, fmt.Sprintf("validate authseq cap=%d objs=%d,%d", capN, forged, legit))
 		}
 	}
 	// random sequences over all tokens, owners, signers, with broken object signatures
